@@ -97,6 +97,46 @@ Theorem C15_no_reconnection : forall c l,
   mrun c (mkM Conn 0 false) (IDrop :: l) = ([EClose], mkM Idle 0 false).
 Proof. exact drop_without_reconnection. Qed.
 
+(** Histories with aborted retry cycles.  The machine accepts Close() / socket.Disconnect() at any point
+    of a cycle, also while the manager sleeps in a back-off delay.  After ANY history of opens, closes,
+    dial outcomes and losses (any number of aborted cycles included) the counter is 0 outside a retry
+    cycle and skipReconnect is off while not idle ... *)
+Theorem C15_counter_zero_outside_retry : forall c hist, inv2 (snd (mrun c minit hist)).
+Proof. intros c hist. exact (mrun_inv2 c hist minit minit_inv2). Qed.
+
+(** ... so a loss in a connected state reached by ANY history is followed by exactly N rounds numbered
+    from 1 with the delays of counter 0.. (the first one is the first delay), one reconnect_failed and
+    nothing more ... *)
+Theorem C15_gives_up_exactly_after_any_history : forall c hist os1 os2,
+  0 < limit c < two32 -> no_reconnection c = false ->
+  Z.of_nat (length os1) = limit c ->
+  ph (snd (mrun c minit hist)) = Conn ->
+  mrun c (snd (mrun c minit hist)) (IDrop :: fails (os1 ++ os2)) =
+  (EClose :: rounds c 0 os1 ++ [EReconnectFailed], mkM Idle 0 false).
+Proof. exact gives_up_after_any_history. Qed.
+
+(** ... or by a reconnect when the server comes back in time. *)
+Theorem C15_reconnects_when_up_after_any_history : forall c hist os conv jit,
+  0 <= limit c < two32 -> no_reconnection c = false ->
+  (if limit c =? 0 then Z.of_nat (length os) < max_u32 else Z.of_nat (length os) < limit c) ->
+  ph (snd (mrun c minit hist)) = Conn ->
+  mrun c (snd (mrun c minit hist)) (IDrop :: fails os ++ [IDial true conv jit]) =
+  (EClose :: rounds c 0 os ++
+     [EAttempt (Z.of_nat (length os) + 1) (duration (bmin c) (bmax c) (Z.of_nat (length os)) conv jit);
+      EOpen; EReconnect (Z.of_nat (length os) + 1)],
+   mkM Conn 0 false).
+Proof. exact reconnects_after_any_history. Qed.
+
+(** A cycle aborted after k failed rounds (Close during the (k+1)-th sleep) and a later Open():
+    k rounds, close, open; connected with the counter at 0. *)
+Theorem C15_aborted_cycle : forall c os,
+  0 <= limit c < two32 -> no_reconnection c = false ->
+  (if limit c =? 0 then Z.of_nat (length os) < max_u32 else Z.of_nat (length os) < limit c) ->
+  forall conv jit,
+  mrun c (mkM Conn 0 false) (IDrop :: fails os ++ [IClose; IOpen; IDial true conv jit]) =
+  (EClose :: rounds c 0 os ++ [EClose; EOpen], mkM Conn 0 false).
+Proof. exact aborted_then_open. Qed.
+
 (** * Offline buffer *)
 
 (** For every history of emits (volatile or not, with or without ack, any number of attachments),
@@ -149,6 +189,15 @@ Proof. vm_compute. reflexivity. Qed.
 Example C15_example_gives_up :
   fst (mrun (mkCfg 2 false 10 40) (mkM Conn 0 false) (IDrop :: fails [(0, None); (0, None); (0, None)]))
   = [EClose; EAttempt 1 10; EError; EReconnectError; EAttempt 2 20; EError; EReconnectError; EReconnectFailed].
+Proof. vm_compute. reflexivity. Qed.
+
+Example C15_example_aborted :
+  fst (mrun (mkCfg 3 false 10 80) minit
+        [IOpen; IDial true 0 None; IDrop; IDial false 0 None; IDial false 0 None; IClose;
+         IOpen; IDial true 0 None; IDrop; IDial false 0 None; IDial false 0 None; IDial false 0 None])
+  = [EOpen; EClose; EAttempt 1 10; EError; EReconnectError; EAttempt 2 20; EError; EReconnectError; EClose;
+     EOpen; EClose; EAttempt 1 10; EError; EReconnectError; EAttempt 2 20; EError; EReconnectError;
+     EAttempt 3 40; EError; EReconnectError; EReconnectFailed].
 Proof. vm_compute. reflexivity. Qed.
 
 Example C15_example_offline :
